@@ -983,6 +983,7 @@ def sub_invoke_factory():
 
 # ----------------------------------------------------------------------------------------------------------------------
 UNCONSUMED = []
+FACT_NOTES = []
 
 
 def case_public(case):
@@ -1008,6 +1009,9 @@ def report(ctx, case, d, res, runner='CliRunner'):
             except Exception:
                 pass
     fact = any(u[0] == case['cmd'] for u in UNCONSUMED)
+    for c, note in FACT_NOTES:
+        if c == case['cmd']:
+            text += ' [extracted fact: %s]' % note
     if fact:
         text += ' [extracted fact: %r is parsed but never used by the command body]' % [u for u in UNCONSUMED if u[0] == case['cmd']]
     sig = '%s:%s%s' % (case['cmd'], kind, (':' + cul) if cul else '')
@@ -1028,6 +1032,16 @@ def run(ctx):
         ctx.coverage['extracted_facts'] = dict(parameters=len(table), commands=sorted({p['cmd'] for p in table}),
                                                unconsumed=[[p['cmd'], p['param']] for p in table if not p['used']])
         UNCONSUMED[:] = ctx.coverage['extracted_facts']['unconsumed']
+        del FACT_NOTES[:]
+        for c in ('cls', 'fit'):
+            calls = ORDER_FACTS.get(c, [])
+            if not calls or not {'optimizer', 'optconf'} <= set(calls[-1]):
+                FACT_NOTES.append((c, 'the last set_backend call of `%s` does not carry --optimizer/--optconf (state-setting calls in order: %r)' % (c, calls)))
+        for c, p, v, acc in LOOP_FACTS:
+            if not acc:
+                FACT_NOTES.append((c, 'the loop over the values of `%s` assigns %s without reading it: only the last value takes effect' % (p, v)))
+        ctx.coverage['extracted_facts'].update(state_setting_calls={k: v for k, v in ORDER_FACTS.items() if v}, loops_over_repeatable_options=LOOP_FACTS,
+                                               failed_order_or_loop_facts=[list(x) for x in FACT_NOTES])
     except facts.TieBroken as e:
         tie = 'fact extraction failed: %s' % e
     if tie is None:
